@@ -156,7 +156,7 @@ theorem C04_copyBddF_rename (lm : List (Nat × Nat)) (fu : Nat) (m : Mgr) (u : I
 /-- C04 (`rename(u, dvars)`, names to declared names; swaps and non-injective maps included):
 the result denotes `u` with every level `i` read at the level of the target name of the
 variable at `i` (its own name when it is not a key of `dvars`) -/
-theorem C04_rename (m : Mgr) (hI : Inv m) (hoff : m.lastLen = none) (hV : VarsOK m.tbl)
+theorem C04_rename (m : Mgr) (hI : Inv m) (hoff : m.lastLen = none) (hV : VarsBij m.tbl)
     (u : Int) (hu : m.tbl.Mem u) (dvars : List (String × String))
     (hd : ∀ p, p ∈ dvars → m.tbl.vars.contains p.2 = true) :
     ∃ r m', rename u dvars m = (.ok r, m') ∧ Inv m' ∧ Ext m.tbl m'.tbl ∧ m'.tbl.Mem r ∧
@@ -217,7 +217,7 @@ theorem C04_let_refs (m : Mgr) (hI : Inv m) (hoff : m.lastLen = none) (u : Int)
     exact compose_spec m hI hoff u hu _ hdecl hmem
 
 /-- C04 (`let` with names as values) -/
-theorem C04_let_names (m : Mgr) (hI : Inv m) (hoff : m.lastLen = none) (hV : VarsOK m.tbl)
+theorem C04_let_names (m : Mgr) (hI : Inv m) (hoff : m.lastLen = none) (hV : VarsBij m.tbl)
     (u : Int) (hu : m.tbl.Mem u) (d : List (String × String))
     (hd : ∀ p, p ∈ d → m.tbl.vars.contains p.2 = true) :
     ∃ r m', letOp (.names d) u m = (.ok r, m') ∧ Inv m' ∧ Ext m.tbl m'.tbl ∧ m'.tbl.Mem r ∧
@@ -268,7 +268,7 @@ theorem C04_operand_unchanged (m m' : Mgr) (hI : Inv m) (he : Ext m.tbl m'.tbl) 
 /-- non-vacuity: a manager with the variable `x`, its node `u` (a non-constant function), a
 non-empty dictionary of each of the three kinds meeting the hypotheses above; the substitution
 `x := TRUE` really changes the value at the all-false assignment -/
-example : ∃ (m : Mgr) (u : Int), Inv m ∧ m.lastLen = none ∧ VarsOK m.tbl ∧ m.tbl.Mem u ∧
+example : ∃ (m : Mgr) (u : Int), Inv m ∧ m.lastLen = none ∧ VarsBij m.tbl ∧ m.tbl.Mem u ∧
     mapToLevelE m.tbl ([(Key.name "x", true)].map (·.1)) = .ok [0] ∧
     (∀ p, p ∈ [("x", u)] → m.tbl.vars.contains p.1 = true ∧ m.tbl.Mem p.2) ∧
     (∀ p, p ∈ [("x", "x")] → m.tbl.vars.contains p.2 = true) ∧
